@@ -253,6 +253,29 @@ var c16Classes = []c16Class{
 	{"watch", func(cn *wire.Conn, rng *rand.Rand, i int, _ *c16Env) error {
 		return pipe(cn, []string{"WATCH", "k0", "l0"}, []string{"MULTI"}, []string{"SET", "k0", "w"}, []string{"EXEC"}, []string{"UNWATCH"})
 	}},
+	{"watch-other-db", func(cn *wire.Conn, rng *rand.Rand, i int, _ *c16Env) error {
+		// keys watched in one database, transaction executed (or dropped) in another
+		db := strconv.Itoa(1 + rng.Intn(3))
+		switch i % 3 {
+		case 0:
+			return pipe(cn, []string{"SELECT", db}, []string{"WATCH", "k0", "l0"}, []string{"SELECT", "0"}, []string{"MULTI"}, []string{"SET", "k1", "w"}, []string{"EXEC"})
+		case 1:
+			return pipe(cn, []string{"SELECT", db}, []string{"WATCH", "k0"}, []string{"SELECT", "0"}, []string{"WATCH", "k1"}, []string{"CLIENT", "INFO"}, []string{"CLIENT", "LIST"}, []string{"UNWATCH"})
+		}
+		return pipe(cn, []string{"WATCH", "k0"}, []string{"SELECT", db}, []string{"MULTI"}, []string{"SET", "k0", "x"}, []string{"RPUSH", "l0", "x"}, []string{"EXEC"}, []string{"SELECT", "0"})
+	}},
+	{"write-other-db", func(cn *wire.Conn, rng *rand.Rand, i int, _ *c16Env) error {
+		db := strconv.Itoa(1 + rng.Intn(3))
+		switch i % 4 {
+		case 0:
+			return pipe(cn, []string{"SELECT", db}, []string{"SET", "k0", "o"}, []string{"GET", "k0"})
+		case 1:
+			return pipe(cn, []string{"SELECT", db}, []string{"RPUSH", "l0", "o"}, []string{"LPOP", "l0"})
+		case 2:
+			return pipe(cn, []string{"SELECT", db}, []string{"DEL", "k0", "l0"}, []string{"EXPIRE", "k0", "100"})
+		}
+		return pipe(cn, []string{"SELECT", db}, []string{"GET", "k0"}, []string{"SELECT", "0"}, []string{"GET", "k0"})
+	}},
 	{"select", func(cn *wire.Conn, rng *rand.Rand, i int, _ *c16Env) error {
 		return pipe(cn, []string{"SELECT", strconv.Itoa(rng.Intn(4))}, []string{"SET", "k0", "d"}, []string{"GET", "k0"}, []string{"SELECT", "0"})
 	}},
@@ -498,7 +521,7 @@ func c16RunPairs(r *verdict.Run, pairs []c16Pair, opsPerConn int, shard int) []h
 }
 
 func checkC16(r *verdict.Run) {
-	r.Rule = fmt.Sprintf("the emulator is built with -race and driven by a pair-coverage workload: %d command classes (string/list/hash/set/bitmap read+write, counters, blocking pops, set algebra, keyspace, expiry, SCAN, MULTI/EXEC, WATCH, SELECT, FLUSH, DBSIZE, CLIENT LIST/INFO/SETNAME, CLIENT UNBLOCK/KILL, INFO, HELLO, COMMAND, connection churn, SORT, invalid input); every scheduled pair runs 3+3 connections concurrently on the same keys, "+
+	r.Rule = fmt.Sprintf("the emulator is built with -race and driven by a pair-coverage workload: %d command classes (string/list/hash/set/bitmap read+write, counters, blocking pops, set algebra, keyspace, expiry, SCAN, MULTI/EXEC, WATCH, WATCH and writes across databases, SELECT, FLUSH, DBSIZE, CLIENT LIST/INFO/SETNAME, CLIENT UNBLOCK/KILL, INFO, HELLO, COMMAND, connection churn, SORT, invalid input); every scheduled pair runs 3+3 connections concurrently on the same keys, "+
 		"with the periodic saver on (persist path), a second emulator instance in the same process, SetHook toggled from the host and yields injected around the data store lock; race reports are read from the GORACE log, reduced to the sorted pair of innermost emulator functions. distinct = class pairs whose operations demonstrably overlapped in time", len(c16Classes))
 	n := len(c16Classes)
 	var all []c16Pair
@@ -513,7 +536,8 @@ func checkC16(r *verdict.Run) {
 	ops := 40
 	repeat := 1
 	if r.Tier == "quick" {
-		pairs = all[:64]
+		// every pair once (a sample of the pairs made the quick tier blind to whole class combinations)
+		ops = 30
 	} else {
 		ops = 80
 		repeat = 3
